@@ -39,6 +39,33 @@ func VerifBuffered(t Tube) int {
 	return v.recvWindow.buffer.Len()
 }
 
+// VerifShiftSeq moves the sequence space of an initiated, still idle reliable tube end to start (to be
+// called with the same value on both ends before any data is written): the state a long-lived tube
+// reaches after start-1 frames.  It reports false if the end is not idle in the initiated state.
+func VerifShiftSeq(t Tube, start uint32) bool {
+	v, ok := t.(*Reliable)
+	if !ok {
+		return false
+	}
+	v.l.Lock()
+	defer v.l.Unlock()
+	if v.tubeState != initiated {
+		return false
+	}
+	s := v.sender
+	s.m.Lock()
+	defer s.m.Unlock()
+	v.recvWindow.m.Lock()
+	defer v.recvWindow.m.Unlock()
+	if len(s.frames) != 0 || s.frameNo != 1 || s.ackNo != 1 || v.recvWindow.ackNo != 1 || v.recvWindow.windowStart != 1 ||
+		v.recvWindow.buffer.Len() != 0 || len(v.recvWindow.fragments) != 0 {
+		return false
+	}
+	s.frameNo, s.ackNo = start, uint64(start)
+	v.recvWindow.ackNo, v.recvWindow.windowStart = uint64(start), uint64(start)
+	return true
+}
+
 func VerifNewReceiver(start uint64) *VerifRecv {
 	r := newReceiver(logrus.WithField("verif", "recv"))
 	r.m.Lock()
